@@ -471,14 +471,20 @@ Qed.
 (** * the sentences about headers *)
 
 Lemma handed_over_pipeline all pf q pl k :
-  pipeline_values all (p_headers pl) k <> [] -> forwarding_value q k = None ->
+  pipeline_values all (p_headers pl) k <> [] -> pf = true \/ forwarding_value q k = None ->
   (k = "Cookie" -> p_cookies pl = []) ->
   handed_over all pf q pl k = pipeline_values all (p_headers pl) k.
 Proof.
-  intros Hp Hf Hc. unfold handed_over. rewrite Hf.
+  intros Hp Hf Hc. unfold handed_over.
   assert (Hn : is_nil (pipeline_values all (p_headers pl) k) = false).
   { destruct (pipeline_values all (p_headers pl) k); [congruence | reflexivity]. }
-  rewrite Hn. destruct (String.eqb k "Cookie") eqn:E; [|reflexivity].
+  rewrite Hn.
+  assert (Hb : match forwarding_value q k with
+               | Some v => if pf && negb false then pipeline_values all (p_headers pl) k else [v]
+               | None => pipeline_values all (p_headers pl) k
+               end = pipeline_values all (p_headers pl) k).
+  { destruct Hf as [Hf|Hf]; rewrite Hf; [destruct (forwarding_value q k)|]; reflexivity. }
+  rewrite Hb. destruct (String.eqb k "Cookie") eqn:E; [|reflexivity].
   apply String.eqb_eq in E. rewrite (Hc E). reflexivity.
 Qed.
 
@@ -489,7 +495,7 @@ Theorem pipeline_header_wins fx q pl r tls m uri host hs body k :
   let vs := pipeline_values (fx_c13f3 fx) (p_headers pl) k in
   first_or_empty vs <> "" ->
   k <> "Host" -> k <> "User-Agent" -> (k = "Cookie" -> p_cookies pl = []) ->
-  forwarding_value q k = None ->
+  fx_f4 fx = true \/ forwarding_value q k = None ->
   h_values k hs = vs.
 Proof.
   intros H vs Hv Hk Hua Hc Hf. rewrite (serve_headers _ _ _ _ _ _ _ _ _ _ k H Hk).
@@ -666,9 +672,10 @@ Definition forwarded_field (k : string) (o : outcome) : list string :=
   match o with Forwarded _ _ _ _ hs _ => h_values k hs | NotForwarded _ => [] end.
 
 (** C15-F1: `a` is to be removed, the query has a broken escape elsewhere: `a` reaches the upstream *)
-Theorem F1_refuted : exists q pl r,
+Theorem F1_pinned_refuted : exists q pl r,
   guard_F1 q r = true /\ spec_ok q pl r (serve current q pl r) = false /\
-  forwarded_uri (serve current q pl r) = "/x?a=1&b=%zz".
+  forwarded_uri (serve current q pl r) = "/x?a=1&b=%zz" /\
+  spec_ok q pl r (serve repaired q pl r) = true /\ forwarded_uri (serve repaired q pl r) = "/x?b=%zz".
 Proof.
   exists (ex_req "GET" "/x" "a=1&b=%zz" [] false), no_pl, (ex_rule NoDecode (ex_rw "" "" ["a"])).
   vm_compute. splits; reflexivity.
@@ -676,8 +683,8 @@ Qed.
 
 (** C15-F2: PROPFIND arrives from a trusted peer with X-Forwarded-Method: GET; GET is forwarded *)
 Theorem F2_refuted : exists q pl r,
-  guard_F2 q = true /\ spec_ok q pl r (serve current q pl r) = false /\
-  q_method q = "PROPFIND" /\ forwarded_method (serve current q pl r) = "GET".
+  guard_F2 q = true /\ spec_ok q pl r (serve repaired q pl r) = false /\
+  q_method q = "PROPFIND" /\ forwarded_method (serve repaired q pl r) = "GET".
 Proof.
   exists (ex_req "PROPFIND" "/x" "" [("X-Forwarded-Method", "GET")] true), no_pl, (ex_rule Off None).
   vm_compute. splits; reflexivity.
@@ -685,17 +692,18 @@ Qed.
 
 (** C15-F3: under `on` an encoded semicolon is decoded on the way *)
 Theorem F3_refuted : exists q pl r,
-  guard_F3 q r = true /\ spec_ok q pl r (serve current q pl r) = false /\
-  forwarded_uri (serve current q pl r) = "/0%20/;users".
+  guard_F3 q r = true /\ spec_ok q pl r (serve repaired q pl r) = false /\
+  forwarded_uri (serve repaired q pl r) = "/0%20/;users".
 Proof.
   exists (ex_req "GET" "/0%20/%3Busers" "" [] false), no_pl, (ex_rule On None).
   vm_compute. splits; reflexivity.
 Qed.
 
 (** C15-F4: the pipeline's Forwarded header is overwritten *)
-Theorem F4_refuted : exists q pl r,
+Theorem F4_pinned_refuted : exists q pl r,
   guard_F4 q pl = true /\ spec_ok q pl r (serve current q pl r) = false /\
-  forwarded_field "Forwarded" (serve current q pl r) = ["for=127.0.0.2;host=h.example.com;proto=http"].
+  forwarded_field "Forwarded" (serve current q pl r) = ["for=127.0.0.2;host=h.example.com;proto=http"] /\
+  spec_ok q pl r (serve repaired q pl r) = true /\ forwarded_field "Forwarded" (serve repaired q pl r) = ["v1"].
 Proof.
   exists (ex_req "GET" "/x" "" [] false), {| p_headers := [("Forwarded", "v1")]; p_cookies := [] |}, (ex_rule Off None).
   vm_compute. splits; reflexivity.
@@ -703,10 +711,10 @@ Qed.
 
 (** C15-F5: a prefix with a blank re-encodes the whole path; one with a broken escape sends everything to / *)
 Theorem F5_refuted :
-  (exists q pl r, guard_F5 r = true /\ spec_ok q pl r (serve current q pl r) = false /\
-                  forwarded_uri (serve current q pl r) = "/a%20b/x;y") /\
-  (exists q pl r, guard_F5 r = true /\ spec_ok q pl r (serve current q pl r) = false /\
-                  forwarded_uri (serve current q pl r) = "/").
+  (exists q pl r, guard_F5 r = true /\ spec_ok q pl r (serve repaired q pl r) = false /\
+                  forwarded_uri (serve repaired q pl r) = "/a%20b/x;y") /\
+  (exists q pl r, guard_F5 r = true /\ spec_ok q pl r (serve repaired q pl r) = false /\
+                  forwarded_uri (serve repaired q pl r) = "/").
 Proof.
   split.
   - exists (ex_req "GET" "/x%3By" "" [] false), no_pl, (ex_rule NoDecode (ex_rw "" "/a b" [])).
@@ -732,12 +740,11 @@ Definition nv_rule : rule := ex_rule NoDecode (ex_rw "/api" "/up" ["a"]).
 
 Example nonvacuous :
   oracle_ok nv_req = true /\
-  guard_F1 nv_req nv_rule = false /\ guard_F2 nv_req = false /\ guard_F3 nv_req nv_rule = false /\
-  guard_F4 nv_req nv_pl = false /\ guard_F5 nv_rule = false /\
-  serve current nv_req nv_pl nv_rule =
+  guard_F2 nv_req = false /\ guard_F3 nv_req nv_rule = false /\ guard_F5 nv_rule = false /\
+  serve repaired nv_req nv_pl nv_rule =
     Forwarded false "POST" "/up/v1%2Fx/%3Bq%41?b=%2F&c=" "up:8080"
       [("Accept", ["*/*"]); ("Accept-Encoding", ["gzip"]); ("Authorization", ["Bearer t"]);
        ("Cookie", ["c=1; sid=1"]); ("Forwarded", ["for=127.0.0.9;host=h.example.com;proto=http"]);
        ("X-User", ["alice"; "second"])] "{""a"":1}" /\
-  spec_ok nv_req nv_pl nv_rule (serve current nv_req nv_pl nv_rule) = true.
+  spec_ok nv_req nv_pl nv_rule (serve repaired nv_req nv_pl nv_rule) = true.
 Proof. vm_compute. splits; reflexivity. Qed.
